@@ -91,7 +91,38 @@ func c14Project(items []c14Item, row map[string]any, onceVal map[int]any, sites 
 	return out
 }
 
+// genC14Reregister draws a registration sequence ending in a qualified call of
+// a function that is immediate by then.
+func genC14Reregister(t *rapid.T) *Bundle {
+	name := rapid.SampledFrom([]string{"late", "late2", "lookup"}).Draw(t, "fname")
+	qual := rapid.SampledFrom([]string{"ASYNC", "SPIN", "SPINASYNC"}).Draw(t, "qual")
+	n := rapid.IntRange(1, 4).Draw(t, "nrows")
+	rows := []any{}
+	for i := 0; i < n; i++ {
+		rows = append(rows, map[string]any{"id": float64(i + 1), "a": float64(rapid.IntRange(0, 5).Draw(t, "a") * 10)})
+	}
+	var ops []casefmt.Op
+	if rapid.Bool().Draw(t, "registered_plain_first") {
+		ops = append(ops, casefmt.Op{Doc: 0, Vars: -1, Register: name})
+		for i := 0; i < rapid.IntRange(0, 2).Draw(t, "uses_before"); i++ {
+			form := rapid.SampledFrom([]string{"SELECT id, %s(1, a) AS x FROM t", "SELECT id, ASYNC.%s(1, a) AS x FROM t", "SELECT id FROM t WHERE %s(1, a) >= 0", "SELECT id, ONCE.%s(1, a) AS x FROM t"}).Draw(t, "use_form")
+			ops = append(ops, casefmt.Op{Doc: 0, Vars: -1, Query: fmt.Sprintf(form, name)})
+		}
+	}
+	ops = append(ops, casefmt.Op{Doc: 0, Vars: -1, Register: name, RegisterImmediate: true})
+	alias := ""
+	if qual == "ASYNC" {
+		alias = " AS y"
+	}
+	ops = append(ops, casefmt.Op{Doc: 0, Vars: -1, Query: fmt.Sprintf("SELECT id, %s.%s(2, a)%s FROM t", qual, name, alias)})
+	c := oneClientCase("C14", drawSim(t, ""), map[string]any{"t": rows}, ops...)
+	return &Bundle{Prop: "C14", Kind: "reregister", Case: c, Expect: mustJSON(c14Expect{Place: "reregister", Error: true, Rows: []any{}}), Tags: []string{"place:reregister"}}
+}
+
 func genC14(t *rapid.T) *Bundle {
+	if rapid.IntRange(0, 19).Draw(t, "reregister") == 0 {
+		return genC14Reregister(t)
+	}
 	nrows := rapid.IntRange(0, 6).Draw(t, "nrows")
 	place := rapid.SampledFrom([]string{"top", "derived_star", "cte", "subquery", "derived_cols", "subquery_in_derived", "subquery_in_cte"}).Draw(t, "place")
 	// the calls sit in a row-scoped subquery (possibly itself nested in a derived table / CTE)
@@ -312,6 +343,29 @@ func evalC14(b *Bundle, r *Runner) []*Violation {
 	vs := processHealth(b, o)
 	if len(vs) > 0 {
 		return vs
+	}
+	if exp.Place == "reregister" {
+		// a function name registered as immediate rejects the qualifiers from then on, whatever was
+		// registered or evaluated under that name earlier in the process
+		last := o.Ops[len(o.Ops)-1]
+		for i := range o.Ops[:len(o.Ops)-1] {
+			if failed(&o.Ops[i]) || o.Ops[i].Panic != "" {
+				return []*Violation{mkViolation(b, "UNEXPECTED_ERROR", "reregister", fmt.Sprintf("step %d of the registration sequence failed: %s%s%s", i, o.Ops[i].NewErr, o.Ops[i].ExecErr, o.Ops[i].Panic), o)}
+			}
+		}
+		if !failed(&last) {
+			var seq []string
+			for _, op := range b.Case.Clients[0].Ops {
+				if op.Register != "" {
+					seq = append(seq, fmt.Sprintf("register %s immediate=%v", op.Register, op.RegisterImmediate))
+				} else {
+					seq = append(seq, op.Query)
+				}
+			}
+			return []*Violation{mkViolation(b, "IMMEDIATE_QUALIFIER_ACCEPTED", "reregister", "after the sequence ["+strings.Join(seq, " ; ")+"] the qualified call on the now-immediate function did not fail: rows="+compact(last.Rows), o)}
+		}
+		r.Stats.probe("reregistration_sequences")
+		return nil
 	}
 	if len(o.Ops) != 1 {
 		infra("C14: expected one op observation, got %d", len(o.Ops))
